@@ -53,7 +53,7 @@ def readonly(ctx, R="R-C15-readonly"):
         ws, res = eff.writes_to(f, f.params[1])
         bad = [w for w in ws if False in w.flags]
         ctx.check(not bad, R, f, bad[0].stmt if bad else f.node, "%s.apply does not write through its input unless in_place" % cls,
-                  "%s.apply can modify the caller's array with in_place=False (%s)" % (cls, ", ".join(sorted({w.how for w in bad}))))
+                  "%s.apply can modify the caller's array with in_place=False (%s)" % (cls, ", ".join(sorted({w.how for w in bad}))), robust=True)
     # Stack: the 2-D path copies unless in_place
     f = _m(prog, "Stack", "apply")
     cps = [n for n in f.body_nodes() if isinstance(n, ast.Assign) and astq.eq_text(n.value, "features.copy()")]
@@ -63,7 +63,7 @@ def readonly(ctx, R="R-C15-readonly"):
         g = [astq.text(a.test) for a in astq.ancestors(pm, cps[0]) if isinstance(a, ast.If)]
         ok = g[:1] == ["not in_place"]
     ctx.check(ok, R, f, cps[0] if cps else MISSING(f.node), "the 2-D path of Stack.apply works on a copy unless in_place",
-              "Stack.apply's 2-D path does not copy under `not in_place` (its result would be a view of the caller's array)")
+              "Stack.apply's 2-D path does not copy under `not in_place` (its result would be a view of the caller's array)", robust=True)
     # in_place = True only after the array was replaced by np.pad's fresh result
     sets = [n for n in f.body_nodes() if isinstance(n, ast.Assign) and astq.is_name(n.targets[0], "in_place")]
     for s_ in sets:
@@ -76,7 +76,7 @@ def readonly(ctx, R="R-C15-readonly"):
         ok = any(isinstance(b, ast.Assign) and astq.is_name(b.targets[0], "features") and isinstance(b.value, ast.Call)
                  and prog.qualify(f.module, b.value.func, f) == "numpy.pad" for b in before)
         ctx.check(ok, R, f, s_, "in_place is switched on only after features was replaced by np.pad's fresh array",
-                  "in_place is set to True although features may still be the caller's array")
+                  "in_place is set to True although features may still be the caller's array", robust=True)
 
 
 def deltas_dtype(ctx, R="R-C15-dtype"):
@@ -233,7 +233,7 @@ def blocks_are_filtered(ctx, R="R-C15-crop"):
             n += 1
             ctx.bad(R, f, c_, "a block of the result is %s, not the padded correlation of the features with the delta filter: for pad modes whose "
                     "padding differs from the edge frame (constant, linear_ramp, a callable) the documented deltas of a short input are "
-                    "not constant" % astq.text(a)[:60], "every delta block is computed by the correlation with the delta filter")
+                    "not constant" % astq.text(a)[:60], "every delta block is computed by the correlation with the delta filter", robust=True)
     if not n:
         ctx.ok(R, f.loc(), "every delta block is computed by the correlation with the delta filter (no constant blocks)")
 
